@@ -528,7 +528,31 @@ fn eval_hist(
     keyed: bool,
     subs: &Aggs,
 ) -> Exp {
-    let is_date = field.ty() == Ty::Date;
+    let main = eval_hist_inner(env, docs, field, interval, offset, min_doc_count, hard, ext, keyed, subs, field.ty() == Ty::Date);
+    let no_values = docs.iter().all(|&d| env.corpus.docs[d].get(field).is_empty());
+    if field.ty() == Ty::Date && no_values {
+        // without a single value the column (and with it the date type) is not visible to the
+        // collector: the same buckets without `key_as_string` are accepted
+        let plain = eval_hist_inner(env, docs, field, interval, offset, min_doc_count, hard, ext, keyed, subs, false);
+        return Exp::AnyOf(vec![main, plain]);
+    }
+    main
+}
+
+#[allow(clippy::too_many_arguments)]
+fn eval_hist_inner(
+    env: &Env,
+    docs: &[usize],
+    field: Fd,
+    interval: f64,
+    offset: Option<f64>,
+    min_doc_count: Option<u64>,
+    hard: Option<(f64, f64)>,
+    ext: Option<(f64, f64)>,
+    keyed: bool,
+    subs: &Aggs,
+    is_date: bool,
+) -> Exp {
     let scale = if is_date { 1_000_000.0 } else { 1.0 };
     let interval = if is_date { interval * scale } else { interval };
     let offset = offset.map(|o| if is_date { o * scale } else { o }).unwrap_or(0.0);
